@@ -146,12 +146,25 @@ type FixEsc struct {
 	C int `codec:"é"`
 }
 
+// names whose only character needing a JSON escape is the first / the last one
+type FixEscFirst struct {
+	A int `codec:"<a"`
+	B int `codec:"\"b"`
+	C int `codec:"\\c"`
+	D int `codec:"&d"`
+	E int `codec:"\u0001e"`
+	F int `codec:">"`
+	G int `codec:"g>"`
+	H int `codec:"h\""`
+	I int `codec:"\tj,omitempty"`
+}
+
 var fixedTypes = []reflect.Type{
 	reflect.TypeOf(FixThrice{}), reflect.TypeOf(FixUnexpEmbed{}), reflect.TypeOf(FixUnexpPtrEmbed{}),
 	reflect.TypeOf(FixIface{}), reflect.TypeOf(FixPromoted{}), reflect.TypeOf(FixOwnInfo{}),
 	reflect.TypeOf(FixNamedEmbed{}), reflect.TypeOf(FixTie{}), reflect.TypeOf(FixIntKeys{}),
 	reflect.TypeOf(FixUintKeys{}), reflect.TypeOf(FixOmit{}), reflect.TypeOf(FixOmitArr{}),
-	reflect.TypeOf(FixJSONFallback{}), reflect.TypeOf(FixEsc{}), reflect.TypeOf(TArrIn{}),
+	reflect.TypeOf(FixJSONFallback{}), reflect.TypeOf(FixEsc{}), reflect.TypeOf(FixEscFirst{}), reflect.TypeOf(TArrIn{}),
 	reflect.TypeOf(inner1{}), reflect.TypeOf(Inner2{}), reflect.TypeOf(struct{}{}),
 	reflect.TypeOf(FixBig{}), reflect.TypeOf(FixBigArr{}), reflect.TypeOf(FixBigAll{}), reflect.TypeOf(BigS{}),
 }
@@ -184,6 +197,9 @@ var ifaceType = reflect.TypeOf((*interface{})(nil)).Elem()
 var namePool = []string{"A", "B", "C", "X", "Y", "Zed"}
 var tagNamePool = []string{"A", "B", "x", "y", "C", "n1"}
 
+// names with a character json must escape in first, middle or last position
+var escNamePool = []string{"<p", "p<q", "q>", "&r", `\\s`, `t\\u`, `\"v`, `w\"`, `\u0002x`, `y\u0003`, "é<"}
+
 type genOpts struct {
 	iface    bool // allow interface{} leaf fields
 	infoProb int  // 1/n chance of a _struct field per struct (0 = never)
@@ -207,6 +223,9 @@ func (g *declGen) leaf() reflect.Type {
 func (g *declGen) tag(i int) reflect.StructTag {
 	r := g.r
 	nm := tagNamePool[r.Intn(len(tagNamePool))]
+	if r.Chance(1, 8) {
+		nm = escNamePool[r.Intn(len(escNamePool))]
+	}
 	switch r.Intn(14) {
 	case 0:
 		return reflect.StructTag(fmt.Sprintf(`codec:"%s"`, nm))
